@@ -7,7 +7,9 @@ import OidcModel.Spec.C14
 import OidcModel.Proofs.C01
 import OidcModel.Proofs.C02
 import OidcModel.Generated.RequestObject
-import OidcModel.Proofs.C04
+-- (deep 4) Proofs.C04 is no longer imported: nothing here uses it, and a change that breaks C04's own lemma about AuthorizePrivateJWTKey
+-- must not hide WHICH C14 theorem stops checking
+import OidcModel.Generated.TokenEndpoint
 import OidcModel.Proofs.C14Reuse
 namespace C14
 open Go Gen Hand
@@ -70,7 +72,9 @@ theorem c14_assertion_sound {now t v c} (hks : v.keySet.kind = .nilSet) (h : Ver
 /-- CHARACTERISATION (shape-independent) of the regenerated `AuthorizePrivateJWTKey` of the token-endpoint model -/
 theorem genAuthorizePrivateJWTKey_ok {now t p c} : AuthorizePrivateJWTKey now t p = .ok c ↔
     ∃ j, VerifyJWTAssertion now t p.JWTProfileVerifier = .ok j ∧ p.store.GetClientByClientID j.iss = .ok c ∧ c.auth = Const.AuthMethodPrivateKeyJWT := by
-  unfold AuthorizePrivateJWTKey Provider.Storage Claims.Issuer OPClient.AuthMethod
+  unfold AuthorizePrivateJWTKey
+  -- field or getter, whichever the Go code reads the issuer through
+  simp only [Provider.Storage, Claims.Issuer, Claims.GetIssuer, OPClient.AuthMethod]
   go_leaf
 
 /-- the authenticated identity of `private_key_jwt` is exactly the assertion's issuer, and only for
